@@ -12,7 +12,7 @@ VERIF = os.path.dirname(os.path.dirname(os.path.abspath(__file__)))
 REPO = os.environ.get("VERIF_REPO", "/repo")
 LEAN_DIR = os.environ.get("VERIF_LEAN_DIR", os.path.join(VERIF, "lean", "MafModel"))
 DRIVER = os.path.join(LEAN_DIR, ".lake", "build", "bin", "driver")
-EVIDENCE_DIR = os.path.join(VERIF, "evidence")
+EVIDENCE_DIR = os.environ.get("VERIF_EVIDENCE_DIR", os.path.join(VERIF, "evidence"))
 REPLAY_DIR = os.path.join(VERIF, "replays")
 CORPUS_DIR = os.path.join(VERIF, "corpus")
 GUARD = "MAFLIB_VERIF"
